@@ -1,4 +1,5 @@
 import St4sd.Lemmas.C04Tree
+import St4sd.Lemmas.C04Flatten
 /-!
 # C04 — Resolved component configuration follows the documented layering order
 
@@ -489,6 +490,309 @@ theorem typed_options_partial (t : Ty) (v w : Val) (hs : isScalar v = true)
       | (split at hc <;> first | (cases hc; rfl) | (split at hc <;> cases hc) | cases hc)
       | cases hc
 
+/-! ## 6. Flattening: `FlowIRConcrete.instance()` — the description the runtime executes
+
+`FlowIRExperimentConfiguration(primitive=False)`, `Experiment` and `flowir_instance.yaml` do not hold the
+package description but `instance(platform)` of it (`Model/TreeFlatten.lean`): the selected platform folded
+into `default`.  `flattenRaw` is the layering skeleton of that fold, `flatten` the fold with its
+interpolation passes (compared with the real `instance()` on every run). -/
+
+/-- **flatten_preserves_layering**.  For every description, platform, component of the description and
+variable name: what the component sees in the flattened description (resolved there for the same platform)
+is the value of the SAME layer as in the original description - the fold keeps the whole order
+default global < default stage < platform global < platform stage < component < component override. -/
+theorem flatten_preserves_layering (d : Desc) (P : S) (c : Comp) (hc : c ∈ d.comps) (x : S) :
+    get (varsOf (flattenRaw d P) P (flatCompRaw P c)) x = get (varsOf d P c) x := by
+  have hi := mem_stagesOf d.comps c hc
+  have hscope := get_flatScope d P c.stage x
+  by_cases hP : P = defaultName
+  · subst hP
+    simp only [if_true] at hscope
+    simp only [varsOf, if_true, flatCompRaw_stage, flatCompRaw_compVars, flatCompRaw_ovrVars,
+      flattenRaw_global_default, flattenRaw_stage_default d defaultName c.stage hi]
+    rw [get_update, get_update, hscope, get_update, get_update]
+    simp only [flatCompVars0, get_update]
+    cases get (ovrVars c defaultName) x <;> cases get (compVars c) x <;> rfl
+  · simp only [hP, if_false] at hscope
+    simp only [varsOf, hP, if_false, flatCompRaw_stage, flatCompRaw_compVars, flatCompRaw_ovrVars,
+      flattenRaw_global_default, flattenRaw_stage_default d P c.stage hi,
+      flattenRaw_global_other d P hP, flattenRaw_stage_other d P c.stage hP]
+    rw [get_update, get_update, get_update, get_update, hscope, get_update, get_update]
+    simp only [flatCompVars0, get_update, Tree.get]
+    cases get (ovrVars c P) x <;> cases get (compVars c) x <;> rfl
+
+/-- … spelled out (with `variables_eq_spec`): on a platform other than `default` the flattened description
+offers the first of component override, component, platform stage, platform global, default stage, default
+global that defines the name -/
+theorem flatten_eq_spec (d : Desc) (P : S) (c : Comp) (hc : c ∈ d.comps) (x : S) (hP : P ≠ defaultName) :
+    get (varsOf (flattenRaw d P) P (flatCompRaw P c)) x =
+      firstSome [get (ovrVars c P) x, get (compVars c) x, get (stageVars d P c.stage) x, get (globalVars d P) x,
+                 get (stageVars d defaultName c.stage) x, get (globalVars d defaultName) x] := by
+  rw [flatten_preserves_layering d P c hc x, variables_eq_spec d P c x hP]
+
+/-- **default stage outranks default global after the fold, on every platform**: a variable that a default
+STAGE section defines and that neither the selected platform's sections nor the component re-define keeps
+its stage value in the flattened description - whether or not the default global section defines it too. -/
+theorem flatten_default_stage_outranks_default_global (d : Desc) (P : S) (c : Comp) (hc : c ∈ d.comps) (x : S)
+    (w : Val) (hP : P ≠ defaultName)
+    (hds : get (stageVars d defaultName c.stage) x = some w)
+    (hpg : get (globalVars d P) x = none) (hps : get (stageVars d P c.stage) x = none)
+    (hcv : get (compVars c) x = none) (hov : get (ovrVars c P) x = none) :
+    get (varsOf (flattenRaw d P) P (flatCompRaw P c)) x = some w := by
+  rw [flatten_eq_spec d P c hc x hP, hds, hpg, hps, hcv, hov]
+  rfl
+
+/-- … and platform global still outranks default stage (the reason the fold removes names from the default
+stage section at all) -/
+theorem flatten_platform_global_outranks_default_stage (d : Desc) (P : S) (c : Comp) (hc : c ∈ d.comps) (x : S)
+    (w : Val) (hP : P ≠ defaultName)
+    (hpg : get (globalVars d P) x = some w) (hps : get (stageVars d P c.stage) x = none)
+    (hcv : get (compVars c) x = none) (hov : get (ovrVars c P) x = none) :
+    get (varsOf (flattenRaw d P) P (flatCompRaw P c)) x = some w := by
+  rw [flatten_eq_spec d P c hc x hP, hpg, hps, hcv, hov]
+  rfl
+
+/-- **flatten_preserves_resolution**.  Every text (option value, variable value) interpolates in the
+flattened description to exactly what it interpolates to in the original one - same value, same error, for
+every fuel, strict or primitive: the resolution reads its variables through `get` only
+(`interp_congr`) and the fold preserves every `get` (`flatten_preserves_layering`). -/
+theorem flatten_preserves_resolution (d : Desc) (P : S) (c : Comp) (hc : c ∈ d.comps) (prim : Bool)
+    (f : Nat) (done s : S) :
+    interp f (varsOf (flattenRaw d P) P (flatCompRaw P c)) prim done s = interp f (varsOf d P c) prim done s :=
+  interp_congr _ _ prim (flatten_preserves_layering d P c hc) f done s
+
+/-- a result does not depend on the fuel it was obtained with -/
+theorem interp_deterministic (ctx : Fields) (prim : Bool) (f g : Nat) (s a b : S)
+    (ha : interp f ctx prim [] s = .ok a) (hb : interp g ctx prim [] s = .ok b) : a = b := by
+  have h1 := acyclic_variables_terminate_partial ctx prim f g s a ha
+  have h2 := acyclic_variables_terminate_partial ctx prim g f s b hb
+  rw [Nat.add_comm] at h2
+  rw [h1] at h2
+  cases h2
+  rfl
+
+/-- `V'` is `V` with some variables replaced by *their own resolved value*: what the interpolation passes
+of `instance()` do to the variables they can resolve completely -/
+def PreEvaluated (V V' : Fields) : Prop :=
+  ∀ x, get V' x = get V x ∨
+    ∃ v r g, get V x = some (.str v) ∧ get V' x = some (.str r) ∧ interp g V false [] v = .ok r
+
+/-- **preevaluation_preserves_resolution**: replacing variables by their own resolved values never changes
+what any text resolves to (strict resolution, every fuel): pre-interpolating at flattening time is invisible
+to a later successful resolution. -/
+theorem preevaluation_preserves_resolution (V V' : Fields) (h : PreEvaluated V V') :
+    ∀ (f : Nat) (done s t : S), interp f V false done s = .ok t → interp f V' false done s = .ok t := by
+  intro f
+  induction f with
+  | zero => intro done s t ht; simp [interp] at ht
+  | succ f ih =>
+    intro done s t ht
+    rw [interp] at ht ⊢
+    cases hf : findRef s with
+    | none => rw [hf] at ht; exact ht
+    | some tr =>
+      obtain ⟨pre, x, post⟩ := tr
+      rw [hf] at ht
+      simp only at ht ⊢
+      by_cases hdot : List.contains x '.' = true
+      · rw [if_pos hdot] at ht; cases ht
+      · rw [if_neg hdot] at ht; rw [if_neg hdot]
+        cases hg : Tree.get V x with
+        | none => rw [hg] at ht; simp at ht
+        | some val =>
+          rw [hg] at ht
+          rcases h x with heq | ⟨v, r, g, hv, hv', hr⟩
+          · rw [heq, hg]
+            cases val with
+            | str sv =>
+              simp only at ht ⊢
+              cases hin : interp f V false [] sv with
+              | error e => rw [hin] at ht; simp at ht
+              | ok v1 =>
+                rw [hin] at ht
+                simp only at ht
+                rw [ih _ _ _ hin]
+                exact ih _ _ _ ht
+            | int n => exact ih _ _ _ ht
+            | bool b => exact ih _ _ _ ht
+            | flt r => exact ih _ _ _ ht
+            | null => simp at ht
+            | list xs => simp at ht
+            | dict kvs => simp at ht
+          · rw [hg] at hv
+            cases hv
+            rw [hv']
+            simp only at ht ⊢
+            cases hin : interp f V false [] v with
+            | error e => rw [hin] at ht; simp at ht
+            | ok v1 =>
+              rw [hin] at ht
+              simp only at ht
+              have hrv : r = v1 := interp_deterministic V false g f v r v1 hr hin
+              subst hrv
+              cases f with
+              | zero => simp [interp] at hin
+              | succ f' =>
+                have hfin := interp_result_finished V _ _ _ hr
+                have href := interp_fixpoint V _ _ _ hr
+                have hr' : interp (f' + 1) V' false [] r = .ok r := by
+                  simp only [interp, href, List.nil_append, hfin]
+                rw [hr']
+                exact ih _ _ _ ht
+
+/-- strict success is monotone in the context: a text that resolves with the variables of an inner scope
+resolves to the same value with more variables around, provided none of the inner ones is shadowed -/
+theorem interp_context_mono (K V : Fields) (hsub : ∀ x w, get K x = some w → get V x = some w) :
+    ∀ (f : Nat) (done s t : S), interp f K false done s = .ok t → interp f V false done s = .ok t := by
+  intro f
+  induction f with
+  | zero => intro done s t ht; simp [interp] at ht
+  | succ f ih =>
+    intro done s t ht
+    rw [interp] at ht ⊢
+    cases hf : findRef s with
+    | none => rw [hf] at ht; exact ht
+    | some tr =>
+      obtain ⟨pre, x, post⟩ := tr
+      rw [hf] at ht
+      simp only at ht ⊢
+      by_cases hdot : List.contains x '.' = true
+      · rw [if_pos hdot] at ht; cases ht
+      · rw [if_neg hdot] at ht; rw [if_neg hdot]
+        cases hg : Tree.get K x with
+        | none => rw [hg] at ht; simp at ht
+        | some val =>
+          rw [hg] at ht
+          rw [hsub x val hg]
+          cases val with
+          | str sv =>
+            simp only at ht ⊢
+            cases hin : interp f K false [] sv with
+            | error e => rw [hin] at ht; simp at ht
+            | ok v1 =>
+              rw [hin] at ht
+              simp only at ht
+              rw [ih _ _ _ hin]
+              exact ih _ _ _ ht
+          | int n => exact ih _ _ _ ht
+          | bool b => exact ih _ _ _ ht
+          | flt r => exact ih _ _ _ ht
+          | null => simp at ht
+          | list xs => simp at ht
+          | dict kvs => simp at ht
+
+/-- the passes of `instance()` keep the keys of the dictionary they rewrite, and every value they touch is
+either kept or replaced by the result of the function applied -/
+theorem get_mapFields (g : Val → Except Err Val) : ∀ (a b : Fields), mapFields g a = .ok b → ∀ x,
+    (Tree.get a x = none ∧ Tree.get b x = none) ∨
+      ∃ v v', Tree.get a x = some v ∧ Tree.get b x = some v' ∧ g v = .ok v' := by
+  intro a
+  induction a with
+  | nil => intro b h x; simp only [mapFields] at h; cases h; exact Or.inl ⟨rfl, rfl⟩
+  | cons hd tl ih =>
+    intro b h x
+    obtain ⟨k, v⟩ := hd
+    simp only [mapFields] at h
+    cases hg : g v with
+    | error e => rw [hg] at h; cases h
+    | ok v' =>
+      rw [hg] at h
+      simp only at h
+      cases hm : mapFields g tl with
+      | error e => rw [hm] at h; cases h
+      | ok tl' =>
+        rw [hm] at h
+        cases h
+        simp only [Tree.get]
+        by_cases hk : k = x
+        · simp only [hk, if_true]; exact Or.inr ⟨v, v', rfl, rfl, hg⟩
+        · simp only [hk, if_false]; exact ih tl' hm x
+
+/-- **the strict passes of `instance()` are pre-evaluations** (the loop over the global variables with
+`A = K =` the merged global variables, the loop over the stage variables with `A =` the merged stage
+variables and `K =` global + stage): every value is either kept or replaced by what it resolves to in ANY
+context `V` that extends the pass's context `K` without shadowing it - so by
+`preevaluation_preserves_resolution` a later resolution in `V` cannot tell the difference. -/
+theorem flatten_strict_pass_is_preevaluation (fuel : Nat) (K A B V : Fields)
+    (h : mapFields (interpOrKeep fuel K false) A = .ok B)
+    (hsub : ∀ x w, Tree.get K x = some w → Tree.get V x = some w) (x : S) :
+    Tree.get B x = Tree.get A x ∨
+      ∃ v r, Tree.get A x = some (.str v) ∧ Tree.get B x = some (.str r) ∧ interp fuel V false [] v = .ok r := by
+  rcases get_mapFields _ A B h x with ⟨ha, hb⟩ | ⟨v, v', ha, hb, hg⟩
+  · exact Or.inl (by rw [ha, hb])
+  · cases v with
+    | str sv =>
+      simp only [interpOrKeep] at hg
+      cases hin : interp fuel K false [] sv with
+      | ok r =>
+        rw [hin] at hg
+        cases hg
+        exact Or.inr ⟨sv, r, ha, hb, interp_context_mono K V hsub fuel [] sv r hin⟩
+      | error e =>
+        rw [hin] at hg
+        cases e <;> first | (cases hg; exact Or.inl (by rw [ha, hb])) | cases hg
+    | int n => simp only [interpOrKeep] at hg; cases hg; exact Or.inl (by rw [ha, hb])
+    | bool b => simp only [interpOrKeep] at hg; cases hg; exact Or.inl (by rw [ha, hb])
+    | flt r => simp only [interpOrKeep] at hg; cases hg; exact Or.inl (by rw [ha, hb])
+    | null => simp [interpOrKeep] at hg
+    | list xs => simp [interpOrKeep] at hg
+    | dict kvs => simp [interpOrKeep] at hg
+
+/-- the tolerant interpolation (`ignore_errors=True`: second pass over the global variables, component
+variables, blueprints) agrees with the strict one whenever the strict one succeeds -/
+theorem interpSoft_of_interp_ok (ctx : Fields) (prim : Bool) : ∀ (f : Nat) (done s r : S),
+    interp f ctx prim done s = .ok r → interpSoft f ctx prim done s = .ok r := by
+  intro f
+  induction f with
+  | zero => intro done s r h; simp [interp] at h
+  | succ f ih =>
+    intro done s r h
+    rw [interp] at h
+    rw [interpSoft]
+    cases hf : findRef s with
+    | none =>
+      rw [hf] at h
+      simp only at h ⊢
+      unfold finish at h
+      unfold finishSoft
+      split at h
+      · cases h
+      · rename_i hb
+        split at h
+        · cases h
+        · cases h; rw [if_neg hb]
+    | some tr =>
+      obtain ⟨pre, x, post⟩ := tr
+      rw [hf] at h
+      simp only at h ⊢
+      by_cases hdot : List.contains x '.' = true
+      · rw [if_pos hdot] at h; cases h
+      · rw [if_neg hdot] at h; rw [if_neg hdot]
+        cases hg : Tree.get ctx x with
+        | none =>
+          rw [hg] at h
+          simp only at h ⊢
+          by_cases hp : (prim && x == replicaName) = true
+          · rw [if_pos hp] at h; exact ih _ _ _ h
+          · rw [if_neg hp] at h; cases h
+        | some val =>
+          rw [hg] at h
+          cases val with
+          | str sv =>
+            simp only at h ⊢
+            cases hin : interp f ctx prim [] sv with
+            | error e => rw [hin] at h; simp at h
+            | ok v' =>
+              rw [hin] at h
+              simp only at h ⊢
+              exact ih _ _ _ h
+          | int n => exact ih _ _ _ h
+          | bool b => exact ih _ _ _ h
+          | flt r => exact ih _ _ _ h
+          | null => simp at h
+          | list xs => simp at h
+          | dict kvs => simp at h
+
 /-! ## Pins on the regenerated table, non-vacuity -/
 
 /-- the type table still declares what the property's examples rely on -/
@@ -532,5 +836,46 @@ example : interp 40
 
 /-- an undefined variable: error, not "left in place" -/
 example : interp 40 [(['a'], .str ['v'])] false [] "%(a)s %(b)s".toList = .error (.unknownVariable ['b']) := by rfl
+
+private def dF : Desc :=
+  { platforms := [defaultName, ['p']], blueprint := [],
+    variables := [(defaultName, { global := [(['v'], .str "dg".toList), (['w'], .str "wdg".toList)],
+                                  stages := [(0, [(['v'], .str "ds".toList)])] }),
+                  (['p'], { global := [(['w'], .str "wpg".toList)], stages := [] })],
+    comps := [⟨0, ['c'],
+      [("stage".toList, .int 0), ("name".toList, .str ['c']),
+       ("command".toList, .dict [("arguments".toList, .str "%(chain)s %(w)s".toList)]),
+       ("variables".toList, .dict [("chain".toList, .str "<%(v)s>".toList)])]⟩] }
+private def cF : Comp := ⟨0, ['c'],
+      [("stage".toList, .int 0), ("name".toList, .str ['c']),
+       ("command".toList, .dict [("arguments".toList, .str "%(chain)s %(w)s".toList)]),
+       ("variables".toList, .dict [("chain".toList, .str "<%(v)s>".toList)])]⟩
+
+/-- the hypotheses of `flatten_default_stage_outranks_default_global` are satisfiable: `v` is defined by the
+default global AND the default stage section, platform `p` is selected and does not mention it … -/
+example : cF ∈ dF.comps ∧ (['p'] : S) ≠ defaultName ∧
+    Tree.get (stageVars dF defaultName cF.stage) ['v'] = some (.str "ds".toList) ∧
+    Tree.get (globalVars dF defaultName) ['v'] = some (.str "dg".toList) ∧
+    Tree.get (globalVars dF ['p']) ['v'] = none ∧ Tree.get (stageVars dF ['p'] cF.stage) ['v'] = none ∧
+    Tree.get (compVars cF) ['v'] = none ∧ Tree.get (ovrVars cF ['p']) ['v'] = none := by
+  refine ⟨by simp [dF, cF], by decide, rfl, rfl, rfl, rfl, rfl, rfl⟩
+
+/-- `command.arguments` of an answer, as text (empty when there is none) -/
+def argumentsOf (r : Except Err Val) : S :=
+  match r with
+  | .ok v => (match lookupPath ["command".toList, "arguments".toList] v with
+    | some (.str s) => s
+    | _ => [])
+  | .error _ => []
+
+/-- … and the REAL fold (`flatten`, with its interpolation passes, type conversion and override trimming)
+of that description resolves the component on `p` to the stage value (through a chain of variables) and to
+the platform-global value of `w` - the same answer as the original description gives. -/
+example :
+    (match flatten 60 dF ['p'] false true with
+     | .ok fd => argumentsOf (resolve fd ['p'] 0 ['c'] false 60)
+     | .error _ => []) = "<ds> wpg".toList ∧
+    argumentsOf (resolve dF ['p'] 0 ['c'] false 60) = "<ds> wpg".toList := by
+  decide +kernel
 
 end St4sd.C04
